@@ -169,3 +169,22 @@ def through_delegate(m, f):
         if k.arg:
             bind[k.arg] = k.value
     return g, bind
+
+
+def pos_if(node):
+    """(test, body, orelse) of an If / IfExp with the test made positive: leading `not`s are stripped and a single `!=`
+    becomes `==`, swapping the branches each time - so `if not c: B else: A` reads as `if c: A else: B`."""
+    t = node.test
+    body, orelse = node.body, node.orelse
+    while True:
+        if isinstance(t, ast.UnaryOp) and isinstance(t.op, ast.Not):
+            t = t.operand
+            body, orelse = orelse, body
+            continue
+        if isinstance(t, ast.Compare) and len(t.ops) == 1 and isinstance(t.ops[0], (ast.NotEq, ast.IsNot, ast.NotIn)):
+            op = {ast.NotEq: ast.Eq, ast.IsNot: ast.Is, ast.NotIn: ast.In}[type(t.ops[0])]()
+            t = ast.Compare(left=t.left, ops=[op], comparators=t.comparators)
+            ast.copy_location(t, node.test)
+            body, orelse = orelse, body
+            continue
+        return t, body, orelse
